@@ -119,7 +119,11 @@ impl<'a> LspServer<'a> {
                     }
                     self.handle_request(req);
                 }
-                lsp_server::Message::Response(_) => todo!(),
+                lsp_server::Message::Response(_) => {
+                    // This server never sends requests to the client, so a response
+                    // from the client has nothing to correlate with. Ignore it rather
+                    // than terminating the server.
+                }
                 lsp_server::Message::Notification(notification) => {
                     self.handle_notification(&notification);
                 }
